@@ -319,7 +319,7 @@ def Scopes.cacheOkB (h : Heap) (s : Scopes) : Bool :=
 
 def invB (w : World) : Bool :=
   w.cur.wfB w.heap && w.cur.cacheOkB w.heap && w.saved.all (·.wfB w.heap) &&
-  w.closures.all (fun s => s.wfB w.heap && s.cache.isNone)
+  w.closures.all (·.wfB w.heap)
 
 /-! ### driver -/
 open Grass.Proto
